@@ -609,10 +609,17 @@ def judge_site(site, fn):
 
 # ------------------------------------------------------------------------------------------------
 def obligations(ctx):
-    """HOOK (not implemented here): parser totality by abstract interpretation over
-    Reach(KeyName::from_str, Key::from_str, KeyChord::from_str, <KeyChord as Deserialize>::deserialize) — DESIGN §5 C18 (a).
-    The structural PANIC-SITE scan below is the stand-in until the interpreter lands."""
-    pass
+    """Parser totality, numeric part: every overflow / division / bounds / library-precondition obligation reachable from the key and chord
+    parsers and printers is discharged by the abstract interpreter.  The unwrap / str-slicing / panic! sites are the ones PANIC-SITE
+    justifies by its guarded idioms (they need string reasoning the interpreter does not have), so they are excluded here by kind."""
+    from .. import oblrules
+    prog = ctx.prog
+    entries = [b.path for b in prog.bodies if b.file == "src/keys.rs" and b.kind == "AssocFn"
+               and re.search(r"^<keys::(Key|KeyChord|KeyName|KeyMod) as (std::str::FromStr>::from_str|std::fmt::(Display|Debug)>::fmt|serde::\w+<'de>>::deserialize|serde::\w+>::serialize)$", b.path)]
+    oblrules.run(ctx, "TOTAL", entries, lossy=False, floor_bodies=0, unsafe=False,
+                 kinds={"OVF", "DIV0", "BOUNDS", "BOUNDSCALL", "LIBPRE", "MAPIDX", "ASSERT"},
+                 scope=lambda b: b.file == "src/keys.rs",
+                 desc="no reachable overflow/division/bounds/precondition failure in the key and chord parsers and printers (unwrap/slice sites: PANIC-SITE)")
 
 
 def run(ctx):
